@@ -137,3 +137,43 @@ Qed.
 
 Print Assumptions C01_history_partial.
 Print Assumptions C01_refinement_every_history.
+
+(** ** Creation WITH component values (NewEntityWith, Builder.New of a value builder with or
+    without relation target): the creation without values followed by one Set per value - as
+    worlds by definition of the model ([C01_create_with_is_create_then_set]) and as abstract
+    stores: the new world refines the store in which the entity has been added and every
+    given value written ([C01_new_with], [C01_builder_new_with]); with [C01_R_views] the
+    values read back are the values given. *)
+From Arche Require Import Proofs.CreateWith.
+Theorem C01_create_with_is_create_then_set : forall w ids cs,
+  match op_new w ids [] with
+  | (w0, Ok (VEnt e), _) =>
+      fst (fst (op_new w ids cs)) = set_comps w0 e cs /\ snd (fst (op_new w ids cs)) = Ok (VEnt e)
+  | (_, out, _) => snd (fst (op_new w ids cs)) = out
+  end.
+Proof. exact op_new_split. Qed.
+
+Theorem C01_new_with : forall w A cs w' e evs,
+  R w A -> ids_reg A (map fst cs) -> cs <> [] ->
+  step w (ONewWith cs) = (w', Ok (VEnt e), evs) ->
+  R w' (a_sets (a_add A e (mkA (new_mask (map fst cs)) ezero [])) e cs).
+Proof. exact step_new_with. Qed.
+
+Theorem C01_builder_new_with : forall w A b target w' e evs,
+  R w A -> ids_reg A (b_ids b) -> (forall vs, b_vals b = Some vs -> length vs = length (b_ids b)) ->
+  step w (OBNew b target) = (w', Ok (VEnt e), evs) ->
+  R w' (a_sets (a_add A e (mkA (new_mask (b_ids b)) (default ezero target) [])) e (b_comps b)).
+Proof. exact step_builder_new_with. Qed.
+
+Example C01_new_with_nonvacuous :
+  let w := run (world_init 2 2 64) [ORegister 10 false false; ORegister 11 false false] in
+  let r := step w (ONewWith [(0, 5%Z); (1, 7%Z)]) in
+  snd (fst r) = Ok (VEnt (mkE 1 0)) /\
+  snd (fst (step (fst (fst r)) (OGet (mkE 1 0) 0))) = Ok (VOptZ (Some 5%Z)) /\
+  snd (fst (step (fst (fst r)) (OGet (mkE 1 0) 1))) = Ok (VOptZ (Some 7%Z)) /\
+  assoc_get (mkE 1 0) (as_ents (a_sets (a_add a_init (mkE 1 0) (mkA (new_mask [0; 1]) ezero [])) (mkE 1 0) [(0, 5%Z); (1, 7%Z)])) =
+    Some (mkA 3 ezero [(1, 7%Z); (0, 5%Z)]).
+Proof. exact demo_new_with. Qed.
+
+Print Assumptions C01_new_with.
+Print Assumptions C01_builder_new_with.
